@@ -135,6 +135,16 @@ type TrMap struct {
 	V int
 }
 
+// serial names that differ only by case / are equal under Unicode case folding (k vs KELVIN SIGN, s vs LONG S)
+type Fold struct {
+	Lower  int    `refmt:"id"`
+	Upper  int    `refmt:"ID"`
+	K      string `refmt:"k"`
+	Kelvin string `refmt:"\u212a"`
+	S      int    `refmt:"s"`
+	LongS  int    `refmt:"\u017f"`
+}
+
 // tagged and untagged transform types side by side in one struct
 type TwoTr struct {
 	A TrNum
@@ -149,7 +159,7 @@ type Wide struct {
 	F00 int
 	F01 int
 	F02 int
-	F03 int
+	F03 int `refmt:",omitempty"`
 	F04 int
 	F05 int
 	F06 int
@@ -209,13 +219,13 @@ type Wide struct {
 	F60 int
 	F61 int
 	F62 int
-	F63 int
-	F64 int
-	F65 int
+	F63 int `refmt:",omitempty"`
+	F64 int `refmt:",omitempty"`
+	F65 int `refmt:",omitempty"`
 	F66 int
 	F67 int
 	F68 int
-	F69 int
+	F69 int `refmt:",omitempty"`
 }
 
 // transformed to integers of different widths (the receive type of the unmarshal transform is int16 / int8)
@@ -289,6 +299,15 @@ var transforms = []trPair{
 	{9,
 		func(t TrN) (int8, error) { return t.V, nil },
 		func(v int8) (TrN, error) { return TrN{v}, nil }},
+	{11, // the same key type as pair 1, written with another separator (used by one atlas only)
+		func(k KeyStruct) (string, error) { return k.A + "\x1e" + k.B, nil },
+		func(s string) (KeyStruct, error) {
+			i := strings.IndexByte(s, 0x1e)
+			if i < 0 {
+				return KeyStruct{}, fmt.Errorf("no separator")
+			}
+			return KeyStruct{s[:i], s[i+1:]}, nil
+		}},
 	{10,
 		func(d Digest) (string, error) { return string(d[:]), nil },
 		func(s string) (Digest, error) {
@@ -419,15 +438,20 @@ func trEntry(live interface{}, id int, tag int) *atlas.AtlasEntry {
 	}
 	for _, t := range transforms {
 		if t.id == id {
-			return b.Transform().
+			e := b.Transform().
 				TransformMarshal(atlas.MakeMarshalTransformFunc(t.m)).
 				TransformUnmarshal(atlas.MakeUnmarshalTransformFunc(t.u)).Complete()
+			entryTrID[e] = id
+			return e
 		}
 	}
 	panic("no transform")
 }
 
 var trFuncID = map[reflect.Type]int{}
+
+// the transform pair an entry was built with (one Go type may be mapped through different pairs by different atlases)
+var entryTrID = map[*atlas.AtlasEntry]int{}
 
 func buildAtlases() {
 	if atlases != nil {
@@ -443,7 +467,7 @@ func buildAtlases() {
 	trFuncID[reflect.TypeOf(TrW{})] = 8
 	trFuncID[reflect.TypeOf(TrN{})] = 9
 	trFuncID[reflect.TypeOf(Digest{})] = 10
-	structs := []interface{}{Inner{}, WithPtr{}, Emb{}, Rec{}, Tagged{}, OmitAll{}, Nums{}, HasShape{}, HasNoAtlas{}, MapKeyed{}, TwoMaps{}, TwoTr{}, Wide{}, Circle{}, Square{}}
+	structs := []interface{}{Inner{}, WithPtr{}, Emb{}, Rec{}, Tagged{}, OmitAll{}, Nums{}, HasShape{}, HasNoAtlas{}, MapKeyed{}, TwoMaps{}, TwoTr{}, Wide{}, Fold{}, Circle{}, Square{}}
 	mk := func(id int, sort atlas.KeySortMode, mode atlas.KeySortMode, tags bool, extra ...*atlas.AtlasEntry) {
 		var es []*atlas.AtlasEntry
 		{
@@ -468,7 +492,11 @@ func buildAtlases() {
 		if tags {
 			tt, sqTag, optTag, wTag, nTag, dTag = 23, 25, 27, 28, 29, 30
 		}
-		es = append(es, trEntry(KeyStruct{}, 1, -1), trEntry(TrNum(0), 2, tt), trEntry(TrBytes{}, 3, tt+1), trEntry(TrComp{}, 4, -1), trEntry(TrSq{}, 5, sqTag), trEntry(TrMap{}, 6, -1), trEntry(TrOpt{}, 7, optTag), trEntry(TrW{}, 8, wTag), trEntry(TrN{}, 9, nTag), trEntry(Digest{}, 10, dTag))
+		ksTr := 1
+		if id == 4 {
+			ksTr = 11
+		}
+		es = append(es, trEntry(KeyStruct{}, ksTr, -1), trEntry(TrNum(0), 2, tt), trEntry(TrBytes{}, 3, tt+1), trEntry(TrComp{}, 4, -1), trEntry(TrSq{}, 5, sqTag), trEntry(TrMap{}, 6, -1), trEntry(TrOpt{}, 7, optTag), trEntry(TrW{}, 8, wTag), trEntry(TrN{}, 9, nTag), trEntry(Digest{}, 10, dTag))
 		es = append(es, extra...)
 		a := atlas.MustBuild(es...).WithMapMorphism(atlas.MapMorphism{KeySortMode: sort})
 		atlases = append(atlases, &atlasCfg{id: id, atl: a, entries: es, nReg: len(es), sort: sort})
@@ -488,7 +516,7 @@ func buildAtlases() {
 	mmU := atlas.BuildEntry(map[string]interface{}{}).MapMorphism().SetKeySortMode(atlas.KeySortMode_RFC7049).Complete()
 	{
 		save := structs
-		structs = []interface{}{Inner{}, WithPtr{}, Rec{}, Tagged{}, OmitAll{}, Nums{}, HasShape{}, HasNoAtlas{}, MapKeyed{}, TwoMaps{}, TwoTr{}, Wide{}, Circle{}, Square{}}
+		structs = []interface{}{Inner{}, WithPtr{}, Rec{}, Tagged{}, OmitAll{}, Nums{}, HasShape{}, HasNoAtlas{}, MapKeyed{}, TwoMaps{}, TwoTr{}, Wide{}, Fold{}, Circle{}, Square{}}
 		mk(3, atlas.KeySortMode_Strings, atlas.KeySortMode_Strings, true, embEntry, mm, mmU)
 		structs = save
 	}
@@ -536,7 +564,7 @@ func describeEntry(e *atlas.AtlasEntry, pool []*atlas.AtlasEntry) string {
 	head := fmt.Sprintf("%d,%s,", tid(e.Type), tag)
 	switch {
 	case e.MarshalTransformFunc != nil || e.UnmarshalTransformFunc != nil:
-		return head + fmt.Sprintf("tr=%d:%d:%d", trFuncID[e.Type], tid(e.MarshalTransformTargetType), tid(e.UnmarshalTransformTargetType))
+		return head + fmt.Sprintf("tr=%d:%d:%d", entryTrID[e], tid(e.MarshalTransformTargetType), tid(e.UnmarshalTransformTargetType))
 	case e.StructMap != nil:
 		var fs []string
 		for _, f := range e.StructMap.Fields {
@@ -598,7 +626,7 @@ func rootTypes() []reflect.Type {
 		float32(0), float64(0), []byte{}, MyInt(0), MyI8(0), MyI16(0), MyU16(0), MyU32(0), MyStr(""), MyBool(false), MyF32(0), MyBytes{},
 		Arr4{}, Arr0{}, [3]byte{}, []MyByte{}, [2]MyByte{},
 		Inner{}, WithPtr{}, Emb{}, EmbPtr{}, Rec{}, Tagged{}, OmitAll{}, Nums{}, KeyStruct{}, TrNum(0), TrBytes{}, TrComp{}, HasShape{},
-		NoAtlas{}, HasNoAtlas{}, MapKeyed{}, MapInt{}, StrMap{}, Circle{}, Square{}, TwoMaps{}, TrSq{}, []TrSq{}, map[string]TrSq{}, TrMap{}, []TrMap{}, map[string]TrMap{}, [2]TrMap{}, TrOpt{}, []TrOpt{}, TwoTr{}, Wide{}, TrW{}, TrN{}, []TrW{}, []TrN{}, Digest{}, []Digest{}, map[string]Digest{}, KeyedMap{}, []KeyedMap{}, map[string]NoAtlas{}, map[string][]NoAtlas{}, []map[string]int{}, (*int64)(nil), []int64{}, [2][]byte{}, [1]*[4]byte{}, [2]interface{}{}, [2]map[string]int{}, [2][]int{},
+		NoAtlas{}, HasNoAtlas{}, MapKeyed{}, MapInt{}, StrMap{}, Circle{}, Square{}, TwoMaps{}, TrSq{}, []TrSq{}, map[string]TrSq{}, TrMap{}, []TrMap{}, map[string]TrMap{}, [2]TrMap{}, TrOpt{}, []TrOpt{}, TwoTr{}, Wide{}, TrW{}, TrN{}, []TrW{}, []TrN{}, Digest{}, []Digest{}, map[string]Digest{}, KeyedMap{}, []KeyedMap{}, Fold{}, []Fold{}, map[string]NoAtlas{}, map[string][]NoAtlas{}, []map[string]int{}, (*int64)(nil), []int64{}, [2][]byte{}, [1]*[4]byte{}, [2]interface{}{}, [2]map[string]int{}, [2][]int{},
 		[]int{}, []string{}, [2]string{}, [0]int{}, [][]int{}, []*int{}, []interface{}{}, map[string]int{}, map[string]interface{}{},
 		map[string][]byte{}, map[string]map[string]string{}, map[KeyStruct]string{}, map[TrNum]int{}, map[int]int{}, map[MyStr]int{},
 		(*int)(nil), (**string)(nil), (*[]int)(nil), (*Inner)(nil), (***Inner)(nil), (*interface{})(nil), []*Inner{}, map[string]*Rec{},
